@@ -1049,7 +1049,31 @@ def rule_new_axes(ctx):
     ctx.covered('R20.13', 'to_new_axes: projection taken with the normalised new z axis; product of from_to(newz, z) and a rotation about z', n, floor=3)
 
 
+def rule_com_extent(ctx, rule='R20.14'):
+    """R20.14: the centre of mass that move_to_com subtracts is that of all real particles. Particles beyond N_active are
+    "test particles" for the force calculation only; they may carry mass (testparticle_type = 1, or simply massive bodies
+    the user keeps inactive), so a sum over the active particles is the centre of mass of a subset. In reb_simulation_com
+    the range handed to reb_simulation_com_range is [0, N - N_var)."""
+    from . import extents
+    tu = cfront.load_tu('tools.c')
+    fn = tu.func('reb_simulation_com')
+    NV = extents.named_values(fn)
+    n = 0
+    for e in walk(cfront.body(fn)):
+        if e.get('kind') == 'CallExpr' and callee_name(e) == 'reb_simulation_com_range':
+            a = call_args(e)
+            lo = extents.canon(extents.resolve(render(a[1]), NV))
+            hi = extents.canon(extents.resolve(render(a[2]), NV))
+            n += 1
+            if lo != '0' or hi != extents.canon(extents.REAL):
+                ctx.report(rule, 'com:extent', 'src/tools.c:%s reb_simulation_com' % line_of(e),
+                           'the centre of mass is taken over particles [%s, %s) instead of all real particles [0, r.N-r.N_var): massive particles outside the range (beyond N_active) are left out, and move_to_com leaves the true centre of mass moving and off the origin' % (lo, hi))
+    anchor(n >= 1, 'reb_simulation_com calls reb_simulation_com_range')
+    ctx.covered(rule, 'reb_simulation_com sums over all real particles', n, floor=1)
+
+
 def run(ctx):
+    rule_com_extent(ctx)
     rule_new_axes(ctx)
     rule_constructor_copies(ctx)
     rule_linear_map_effects(ctx)
